@@ -1,4 +1,4 @@
-CONSTANTS Workers = {1,2} Ops = {"cleanup","failed"} Variant = "code" Late = TRUE
+CONSTANTS Workers = {1,2} Ops = {"cleanup","failed"} Variant = "code" Late = TRUE MainCtx = TRUE Recheck = TRUE
 SPECIFICATION Spec
 INVARIANTS NoRace CleanupOnce
 PROPERTY Termination
